@@ -49,6 +49,8 @@ class DType:
     def __call__(self, v=0):
         # np.float64(x) used as a constructor
         if self.kind == "f":
+            if self.name == "float32" and getattr(core.ENG, "fp32_round", False):
+                return _round32(v if core.is_sym(v) else builtins.float(v))  # np.float32(x) rounds like a float32 store
             return v if core.is_sym(v) else builtins.float(v)
         if self.kind == "i":
             return v if core.is_sym(v) else builtins.int(v)
